@@ -34,6 +34,9 @@ structure Config where
   removeInvalidates : Bool
   initInvalidates : Bool
   overrideDetaches : Bool
+  /-- `Node.remove` deletes a node only when no connection remains (otherwise `_delete` raises
+      if an uncounted component, `O`/`A`, is still attached) -/
+  keepConnectedNode : Bool
   deps : List (String × List String)
   reads : List (String × List String)
   spawns : List String
@@ -127,26 +130,28 @@ def dropNode : NodeTab → String → NodeTab
 /-- `Node.remove(cpt)`: drop one connection, `_count -= 1` when counted, and when the count
     reaches zero `Nodes._delete` (`dict.pop`: no entry with that key remains), which raises if
     connections remain.  `none` = the raise. -/
-def detach : NodeTab → String → Bool → Option NodeTab
+def detach (keep : Bool) : NodeTab → String → Bool → Option NodeTab
   | [], _, _ => some []
   | x :: xs, n, c =>
     if x.name = n then
       let cnt := if c then x.count - 1 else x.count
       let dg := x.deg - 1
-      if cnt = 0 then (if dg = 0 then some (dropNode xs n) else none)
+      if cnt = 0 then
+        (if dg = 0 then some (dropNode xs n)
+         else if keep then some (⟨x.name, cnt, dg⟩ :: xs) else none)
       else some (⟨x.name, cnt, dg⟩ :: xs)
-    else (detach xs n c).map (x :: ·)
+    else (detach keep xs n c).map (x :: ·)
 
 /-- the loop `for node in cpt.nodes: node.remove(cpt)`; on a raise the table is left as it was
     at that moment (`Sum.inl`), which is what Python does -/
-def detachAll : NodeTab → List String → Bool → NodeTab ⊕ NodeTab
+def detachAll (keep : Bool) : NodeTab → List String → Bool → NodeTab ⊕ NodeTab
   | t, [], _ => .inr t
   | t, n :: ns, c =>
-    match detach t n c with
+    match detach keep t n c with
     | none =>
       -- `_delete` raised after `_connected`/`_count` of this node were already updated
       .inl (t.map (fun x => if x.name = n then ⟨x.name, if c then x.count - 1 else x.count, x.deg - 1⟩ else x))
-    | some t' => detachAll t' ns c
+    | some t' => detachAll keep t' ns c
 
 /-! ### memo stores -/
 
@@ -244,7 +249,7 @@ def addRawInst (cfg : Config) (inst : Inst) (e : Elt) : Inst × Bool :=
   match findElt inst.elts e.name with
   | some old =>
     if cfg.overrideDetaches then
-      match detachAll t1 old.nodes old.counted with
+      match detachAll cfg.keepConnectedNode t1 old.nodes old.counted with
       | .inr t2 => ({ inst with elts := upsert inst.elts e, tab := t2 }, true)
       | .inl t2 => ({ inst with tab := t2 }, false)
     else ({ inst with elts := upsert inst.elts e, tab := t1 }, true)
@@ -273,7 +278,7 @@ def remove (cfg : Config) (w : World) (i : Nat) (nm : String) : World × Bool :=
       match w0.insts[i]? with
       | none => (w0, false)
       | some inst0 =>
-        match detachAll inst0.tab e.nodes e.counted with
+        match detachAll cfg.keepConnectedNode inst0.tab e.nodes e.counted with
         | .inr t => ({ w0 with insts := w0.insts.set i { inst0 with elts := eraseName inst0.elts nm, tab := t } }, true)
         | .inl t => ({ w0 with insts := w0.insts.set i { inst0 with tab := t } }, false)
 
